@@ -177,6 +177,72 @@ def work(task):
     return acc
 
 
+# ---------------------------------------------------------------- histories on one counter
+
+H_EMITS = [(logging.WARNING, 'a'), (logging.WARNING, 'b'), (logging.WARNING, None), (35, 'a'), (logging.ERROR, 'a'),
+           (logging.ERROR, None), (logging.INFO, 'a')]
+H_EVALS = [[], [[(None, 1)]], [[('general', None)]], [[('a', 1)]], [[('general', 1)], [('b', None)]]]
+H_OPS = [('emit', e) for e in H_EMITS] + [('eval', s) for s in H_EVALS]
+
+
+def history_case(ops, acc):
+    """One CountingHandler that lives through a history of records being logged (through the typed adapter, or by a
+    plain logger without any type: documented to count as 'general') and allowances being evaluated in between; every
+    evaluation must agree with the statement applied to the records logged so far."""
+    from vermouth.log_helpers import CountingHandler, TypeAdapter, ignore_warnings_and_count
+    handler = CountingHandler()
+    handler.setLevel(logging.WARNING)
+    logger = logging.Logger('verif-c08-history')
+    logger.addHandler(handler)
+    adapter = TypeAdapter(logger)
+    model = {}
+    evals = 0
+    for step, (kind, arg) in enumerate(ops):
+        if kind == 'emit':
+            level, typ = arg
+            if typ is None:
+                logger.log(level, 'msg')
+            else:
+                adapter.log(level, 'msg', type=typ)
+            if level >= logging.WARNING:
+                model.setdefault(level, {})
+                model[level][typ or 'general'] = model[level].get(typ or 'general', 0) + 1
+            continue
+        evals += 1
+        flat = [x for g in arg for x in g]
+        expected = reference(model, flat)
+        case = {'history': [[k, jsonable_op(a)] for k, a in ops[:step + 1]]}
+        try:
+            got = ignore_warnings_and_count(handler, arg)
+        except Exception as err:   # pylint: disable=broad-except
+            acc.violation('history:exception', 'ignore_warnings_and_count raised %r' % (err,), case)
+            break
+        if got != expected:
+            above = sum(n for lvl, tc in model.items() if lvl > logging.WARNING for n in tc.values())
+            sig = 'history:error-waived' if got < above else ('history:undercount' if got < expected else 'history:overcount')
+            acc.violation(sig, 'after the history %r the leftover is %r, the statement gives %r (records so far %r)' % (
+                case['history'], got, expected, model), case)
+            break
+    acc.case(nontrivial=evals > 0 and bool(model.get(logging.WARNING)), outcome=('h', evals, tuple(sorted(map(str, model.items())))))
+
+
+def jsonable_op(arg):
+    return [list(map(list, g)) for g in arg] if isinstance(arg, list) and (not arg or isinstance(arg[0], list)) else list(arg)
+
+
+def history_work(task):
+    common.bind_repo()
+    prefixes, depth = task
+    acc = Acc()
+    for prefix in prefixes:
+        for rest in itertools.product(H_OPS, repeat=depth - len(prefix)):
+            ops = list(prefix) + list(rest)
+            if ops[-1][0] != 'eval':
+                continue        # a history that does not end in an evaluation is a prefix of one that does
+            history_case(ops, acc)
+    return acc
+
+
 # ---------------------------------------------------------------- parser part
 
 def ref_maxwarn(value):
@@ -253,6 +319,12 @@ def run(ctx):
     lb = Acc()
     logging_binding(lb)
     ctx.layer('counting-handler-binding', lb)
+    hist = Acc()
+    for depth in ((2, 3, 4) if ctx.quick else (2, 3, 4, 5)):
+        prefixes = [[a, b] for a in H_OPS for b in H_OPS]
+        for part in common.pmap(history_work, [(chunk, depth) for chunk in common.chunked(prefixes, 9)]):
+            hist += part
+    ctx.layer('histories-on-one-counter', hist)
     # the way bin/martinize2 hands its -maxwarn arguments to the accounting: real CLI runs
     from props import c07_cli
     c07_cli.run_layer(ctx, focus='maxwarn', name='cli-maxwarn')
@@ -264,6 +336,12 @@ def replay(case):
     if case.get('layer') == 'cli':
         from props import c07_cli
         return c07_cli.replay(case)
+    if 'history' in case:
+        ops = []
+        for kind, arg in case['history']:
+            ops.append((kind, tuple(arg)) if kind == 'emit' else (kind, [[tuple(x) for x in g] for g in arg]))
+        history_case(ops, acc)
+        return [(s, d) for s, d, _ in acc.violations]
     if 'maxwarn' in case:
         script = cli.load_script()
         text = case['maxwarn']
